@@ -31,4 +31,8 @@ func checkSyntaxError(err error, toks []lexer.Token, bad int, lx *stubLexer) {
 	}
 	msg := err.Error()
 	verif.Assert(len(msg) > 0, "the diagnostic is empty")
+	if bad < len(toks) {
+		at := toks[bad].Pos
+		verif.Assert(strings.Contains(msg, "f:"+vitoa(at.Line)+":"+vitoa(at.Column)), "the diagnostic does not name the file, line and column of the offending token")
+	}
 }
